@@ -461,9 +461,114 @@ def run_netscripts(chk, n, nn_choices, length, weights, tag, extra_monitor=None)
     return records
 
 
+ADV_VARIANTS = [
+    # (label, adversary spec relative to victim identity key V and network name N, can it ever be admitted as itself?)
+    ("own-identity", "k=7 names=nN", "self"),
+    ("replay-cert-of-V", "k=V signkey=7 names=nN", "none"),
+    ("replay-cert-of-V-ecdsa-key", "k=V signkey=e names=nN", "none"),
+    ("resigned-cert-with-key-of-V", "k=V by=7 signkey=7 names=nN", "none"),
+    ("ecdsa-identity", "k=e names=nN", "none"),
+    ("expired", "k=7 names=nN valid=expired", "none"),
+    ("not-yet-valid", "k=7 names=nN valid=future", "none"),
+    ("wrong-name", "k=7 names=nX", "none"),
+    ("malformed", "k=7 names=nN wf=flip", "none"),
+    ("no-client-cert", "k=7 names=nN nocert=1", "server-only"),
+    ("client-only-eku", "k=7 names=nN eku=client", "client-only"),
+    ("server-only-eku", "k=7 names=nN eku=server", "server-only"),
+]
+
+
+def adversary_scenarios(chk, n, tag):
+    """Honest nodes 1 (victim of impersonation: identity key V) and 2 (observer), an adversary 8
+    that dials node 2 and is dialed by node 2 (plain and pinned to node 1's identity)."""
+    scen, metas = [], []
+    for i in range(n):
+        rng = chk.rng
+        label, spec, mode = ADV_VARIANTS[i % len(ADV_VARIANTS)]
+        V = rng.randrange(100, 10**6)
+        name = rng.choice([10, 20])
+        spec = spec.replace("k=V", "k=%d" % V).replace("nN", "n%d" % name).replace("nX", "n%d" % (30 if name != 30 else 10))
+        cmds = ["seed=%d delay=%d" % (rng.randrange(1 << 30), rng.choice([500, 2000])),
+                "node 1 key=%d name=n%d" % (V, name), "node 2 key=%d name=n%d" % (V + 1, name),
+                "adv 8 " + spec,
+                "advdial 8 2 sni=n%d" % name, "sleep 500", "peers 2",
+                "connect 2 8", "sleep 300", "peers 2",
+                "connect 2 8 pin=1", "sleep 300", "peers 2",
+                "rpc 2 1 id=probe size=10",
+                "connect 2 1", "sleep 300", "peers 2", "rpc 2 1 id=real size=10", "log 1",
+                "events 2"]
+        scen.append("simnet " + " ; ".join(cmds))
+        metas.append((label, mode))
+    outs, parsed = run_scenarios(chk, scen, tag)
+    for sc, o, res, (label, mode) in zip(scen, outs, parsed, metas):
+        if res is None:
+            continue
+        chk.nontriv(sc)
+        chk.count("adversary:" + label)
+        cmds = [c.strip() for c in sc[len("simnet "):].split(" ; ")][1:]
+        r = {}
+        for c, x in zip(cmds, res):
+            r.setdefault(c, []).append(x)
+        peers = r["peers 2"]
+        # never listed, announced or attributed as node 1 before the real node 1 is connected
+        for k, l in enumerate(peers[:3]):
+            if "1" in l.strip("[]").split(","):
+                chk.monitor_fail("[%s] the adversary was listed as identity 1 at node 2 (step %d)" % (label, k), dict(case=sc, impl=o[:1200]))
+        if r["connect 2 8 pin=1"][0].startswith("ok"):
+            chk.monitor_fail("[%s] a dial pinned to identity 1 succeeded against the adversary" % label, dict(case=sc, impl=o[:1200]))
+        if r["connect 2 8"][0].startswith("ok 1"):
+            chk.monitor_fail("[%s] a dial to the adversary returned identity 1" % label, dict(case=sc, impl=o[:1200]))
+        if r["rpc 2 1 id=probe size=10"][0].startswith("ok"):
+            chk.monitor_fail("[%s] an RPC addressed to identity 1 was served although node 1 is not connected" % label, dict(case=sc, impl=o[:1200]))
+        ev = r["events 2"][0]
+        pre = ev.strip("[]").split(",")
+        if "+1" in pre[:-1] and False:
+            pass
+        # admission of the adversary under its own identity must follow the model
+        dialed_ok = r["advdial 8 2 sni=n%s" % sc.split("name=n")[1][:2]][0] == "ok" if False else [x for c, x in zip(cmds, res) if c.startswith("advdial 8 2")][0] == "ok"
+        conn_ok = r["connect 2 8"][0].startswith("ok")
+        want_dial = mode in ("self", "client-only")
+        want_conn = mode in ("self", "server-only")
+        if dialed_ok != want_dial or conn_ok != want_conn:
+            chk.disagree(sc[:1500], "[%s] adversary-as-client admitted=%s, as-server accepted=%s" % (label, dialed_ok, conn_ok),
+                         "Tls.v: as-client %s, as-server %s" % (want_dial, want_conn), "simnet/adversary")
+        # the genuine node 1 still connects and is attributed correctly on both sides
+        real = r["rpc 2 1 id=real size=10"][0]
+        if not r["connect 2 1"][0].startswith("ok 1") or "from=1" not in real or "seen=2" not in real:
+            chk.monitor_fail("[%s] genuine peer not connected / attributed correctly afterwards: %s %s" % (label, r["connect 2 1"][0], real[:120]), dict(case=sc, impl=o[:1200]))
+    if outs:
+        chk.sample(dict(case=scen[1][:500], impl=outs[1][:500]))
+
+
 def adversary_c03(chk):
-    pass
+    adversary_scenarios(chk, 12 if chk.tier == "quick" else 120, "fabric:adversary")
 
 
 def adversary_c14(chk):
-    pass
+    """An adversarial dialer chooses the claimed name (SNI) and the certificate name independently."""
+    quick = chk.tier == "quick"
+    scen, metas = [], []
+    combos = [(p, a, sni, cn) for p in (10, 20) for a in (None, 20, 30) for sni in (10, 20, 30) for cn in (10, 20, 30) if a != p]
+    if quick:
+        combos = chk.rng.sample(combos, 18)
+    for (p, a, sni, cn) in combos:
+        cmds = ["seed=%d" % chk.rng.randrange(1 << 30),
+                "node 1 key=11 name=n%d%s" % (p, " alt=n%d" % a if a else ""),
+                "adv 8 k=7 names=n%d" % cn, "advdial 8 1 sni=n%d" % sni, "sleep 300", "peers 1"]
+        scen.append("simnet " + " ; ".join(cmds))
+        metas.append((p, a, sni, cn))
+    outs, parsed = run_scenarios(chk, scen, "fabric:adversary-names")
+    mcases = ["advhello %d %s %d %d" % (p, a if a else "-", sni, cn) for (p, a, sni, cn) in metas]
+    mouts = run_model(mcases)
+    for sc, o, res, (p, a, sni, cn), mo in zip(scen, outs, parsed, metas, mouts):
+        if res is None:
+            continue
+        chk.nontriv(sc)
+        got = "accepted" if res[2] == "ok" else "rejected"
+        names = {p} | ({a} if a else set())
+        if got == "accepted" and (cn not in names or sni not in names):
+            chk.monitor_fail("listener (names %s) admitted a dialer claiming n%d with a certificate for n%d" % (sorted(names), sni, cn), dict(case=sc, impl=o[:600]))
+        if got != mo:
+            chk.disagree(sc, got, mo, "simnet/adversary-names")
+    if outs:
+        chk.sample(dict(case=scen[0], impl=outs[0][:300], model=mouts[0]))
